@@ -3,10 +3,12 @@ package nitrocheck
 import (
 	"fmt"
 	"sort"
+	"sync/atomic"
 	"testing"
 	"time"
 
 	"github.com/couchbase/nitro"
+	"github.com/couchbase/nitro/skiplist"
 	"pgregory.net/rapid"
 
 	"verif/lib/ev"
@@ -18,6 +20,12 @@ import (
 // levels of the structure than small databases have. The generated history puts the invisible
 // versions (deleted-later, re-inserted-later, born-later, dead-earlier) where the cursor will be
 // when it refreshes. Sequential and deterministic; the model is a sorted list per snapshot.
+type snapRecL struct {
+	snap    *nitro.Snapshot
+	content []string
+	name    string
+}
+
 func TestC10Large(t *testing.T) {
 	st := ev.Get("C10", "TestC10Large")
 	fail := func(t *rapid.T, sig, desc, format string, args ...any) {
@@ -30,7 +38,19 @@ func TestC10Large(t *testing.T) {
 		sched.SeedRand(t)
 		cfg := Cfg{KV: rapid.Bool().Draw(t, "kv"), NWriters: 1}
 		db := nitro.NewWithConfig(newConfig(cfg, nil))
-		defer db.Close()
+		var snaps []*snapRecL
+		// a failing case must not wait for the snapshots it still holds (Close waits for them), nor for a visit that hangs
+		defer func() {
+			for _, s := range snaps {
+				s.snap.Close()
+			}
+			closed := make(chan struct{})
+			go func() { db.Close(); close(closed) }()
+			select {
+			case <-closed:
+			case <-time.After(5 * time.Second):
+			}
+		}()
 		wr := db.NewWriter()
 		n := rapid.IntRange(10050, 14000).Draw(t, "n")
 		item := func(k string, gen int) []byte {
@@ -56,13 +76,7 @@ func TestC10Large(t *testing.T) {
 			}
 			delete(live, k)
 		}
-		type snapRec struct {
-			snap    *nitro.Snapshot
-			content []string
-			name    string
-		}
-		var snaps []*snapRec
-		snapshot := func(name string) *snapRec {
+		snapshot := func(name string) *snapRecL {
 			s, err := db.NewSnapshot()
 			if err != nil {
 				t.Fatalf("NewSnapshot: %v", err)
@@ -76,7 +90,7 @@ func TestC10Large(t *testing.T) {
 			for i, k := range keys {
 				c[i] = live[k]
 			}
-			r := &snapRec{snap: s, content: c, name: name}
+			r := &snapRecL{snap: s, content: c, name: name}
 			snaps = append(snaps, r)
 			return r
 		}
@@ -196,10 +210,114 @@ func TestC10Large(t *testing.T) {
 				fail(t, "snapshot-count", desc, "Count() of %s = %d, model %d", s.name, s.snap.Count(), len(s.content))
 			}
 		}
+		// steered visit: a complete writer operation is placed between two atomic steps of the visiting
+		// goroutine (a legal interleaving, made deterministic through the skiplist's yield points). At a
+		// drawn delivered item the callback deletes the item's key and puts it again (the new version
+		// follows the delivered one and is invisible to the snapshot); a drawn number of cursor steps later
+		// the key is deleted again, which unlinks the new version at once - under the cursor or next to it.
+		steered := false
+		if rapid.IntRange(0, 2).Draw(t, "steer") > 0 && len(snaps) > 0 {
+			s := snaps[len(snaps)-1] // nothing was mutated since: its content is the live set
+			if len(s.content) > 10010 {
+				nt := rapid.IntRange(1, 4).Draw(t, "targets")
+				targets := map[int]int{} // delivered index -> cursor steps until the second delete
+				for i := 0; i < nt; i++ {
+					var idx int
+					if rapid.IntRange(0, 3).Draw(t, "tclass") == 0 {
+						idx = rapid.IntRange(0, 10000).Draw(t, "tidx")
+					} else {
+						idx = rapid.IntRange(10001, len(s.content)-2).Draw(t, "tidx")
+					}
+					targets[idx] = rapid.IntRange(1, 6).Draw(t, "tsteps")
+				}
+				desc += fmt.Sprintf(" steer(%s,%v)", s.name, targets)
+				var (
+					armed    int32
+					armedGid int64
+					inHook   bool
+					armedKey string
+					fired    int
+					got      []string
+					cbErr    string
+				)
+				skiplist.VerifSetHooks(func(point int) {
+					if atomic.LoadInt32(&armed) == 0 || point != skiplist.VerifPtGetNext || sched.Goid() != armedGid || inHook {
+						return
+					}
+					if atomic.AddInt32(&armed, -1) == 0 {
+						inHook = true
+						if !wr.Delete(item(armedKey, 0)) {
+							cbErr = fmt.Sprintf("steered Delete(%q) of the re-inserted key failed", armedKey)
+						}
+						delete(live, armedKey)
+						fired++
+						inHook = false
+					}
+				}, nil)
+				done := make(chan error, 1)
+				go func() {
+					done <- db.Visitor(s.snap, func(itm *nitro.Item, shard int) error {
+						idx := len(got)
+						got = append(got, string(itm.Bytes()))
+						if steps, ok := targets[idx]; ok && atomic.LoadInt32(&armed) == 0 {
+							k := cfg.keyOf(itm.Bytes())
+							if live[k] == "" {
+								return nil // an earlier target's second delete has not happened; keep the model simple
+							}
+							inHook = true
+							if !wr.Delete(item(k, 0)) {
+								cbErr = fmt.Sprintf("steered Delete(%q) from the callback failed", k)
+							}
+							it := item(k, 9)
+							if wr.Put2(it) == nil {
+								cbErr = fmt.Sprintf("steered Put(%q) from the callback failed", k)
+							}
+							live[k] = string(it)
+							inHook = false
+							armedKey, armedGid = k, sched.Goid()
+							atomic.StoreInt32(&armed, int32(steps))
+						}
+						return nil
+					}, 1, 1)
+				}()
+				var err error
+				select {
+				case err = <-done:
+				case <-time.After(60 * time.Second):
+					skiplist.VerifSetHooks(nil, nil)
+					fail(t, "visitor-hang", desc, "steered Visitor(%s) did not return within 60 s", s.name)
+				}
+				skiplist.VerifSetHooks(nil, nil)
+				if cbErr != "" {
+					fail(t, "steered-writer", desc, "%s", cbErr)
+				}
+				if err != nil {
+					fail(t, "visitor-spurious-error", desc, "steered Visitor(%s) returned %v", s.name, err)
+				}
+				if !equalSeq(got, s.content) {
+					fail(t, "visitor-content", desc, "steered Visitor(%s) on %d items (%d second deletes placed under the cursor): the delivered sequence differs from the snapshot content\n%s",
+						s.name, len(s.content), fired, diffSeq(got, s.content))
+				}
+				steered = fired > 0
+				// and the state the writer left behind is what a fresh snapshot shows
+				f := snapshot("final")
+				parts, err := VisitShards(db, f.snap, 2, 2, nil)
+				if err != nil {
+					fail(t, "visitor-spurious-error", desc, "Visitor(final) returned %v", err)
+				}
+				if g := ConcatShards(parts); !equalSeq(g, f.content) {
+					fail(t, "visitor-content", desc, "Visitor(final) after the steered visit differs from the model\n%s", diffSeq(g, f.content))
+				}
+			}
+		}
 		for _, s := range snaps {
 			s.snap.Close()
 		}
+		snaps = nil
 		var classes []string
+		if steered {
+			classes = append(classes, "writer-steered-under-refreshed-cursor")
+		}
 		if refreshed {
 			classes = append(classes, "shard-longer-than-refresh-rate")
 		}
